@@ -129,6 +129,26 @@ func Creator(separator rune) func(ctx context.Context, name string, options map[
 			}
 		}
 
+		// A column of integers and floats is a Float column, also when it is nullable or has other alternatives as well.
+		for i := range fields {
+			if octosql.Int.Is(fields[i]) == octosql.TypeRelationIs && octosql.Float.Is(fields[i]) == octosql.TypeRelationIs && fields[i].TypeID == octosql.TypeIDUnion {
+				var withoutInt *octosql.Type
+				for _, alternative := range fields[i].Union.Alternatives {
+					if alternative.TypeID == octosql.TypeIDInt {
+						continue
+					}
+					if withoutInt == nil {
+						alternative := alternative
+						withoutInt = &alternative
+					} else {
+						sum := octosql.TypeSum(*withoutInt, alternative)
+						withoutInt = &sum
+					}
+				}
+				fields[i] = *withoutInt
+			}
+		}
+
 		// Columns are matched with the file by name when reading, so the names must be unique.
 		seenFieldNames := make(map[string]bool, len(fieldNames))
 		for _, fieldName := range fieldNames {
